@@ -2,6 +2,7 @@
 # Copyright 2015 Hewlett-Packard Development Company, L.P.
 #
 # SPDX-License-Identifier: Apache-2.0
+import codecs
 import collections
 
 from bandit.core import constants
@@ -71,6 +72,10 @@ class Metrics:
         def proc(line):
             tmp = line.strip()
             return bool(tmp and not tmp.startswith(b"#"))
+
+        # a UTF-8 byte order mark is not part of the first line's text
+        if lines and lines[0].startswith(codecs.BOM_UTF8):
+            lines = [lines[0][len(codecs.BOM_UTF8) :]] + list(lines[1:])
 
         self.current["loc"] += sum(proc(line) for line in lines)
 
